@@ -406,8 +406,9 @@ fn main() {
             replay(ctx, &m, p);
             return;
         }
-        let depth = std::env::var("VERIF_DEPTH").ok().and_then(|s| s.parse().ok()).unwrap_or(16);
-        let stats = hx::explore(&m, depth, 30_000_000, |v| {
+        let depth = std::env::var("VERIF_DEPTH").ok().and_then(|s| s.parse().ok()).unwrap_or(ctx.tier.pick(8, 11));
+        let cap: u64 = ctx.tier.pick(100_000, 300_000);
+        let stats = hx::explore(&m, depth, cap, |v| {
             ctx.violation(&v.sig, v.msg, json!({"history": v.history.iter().map(|o| format!("{:?}", o)).collect::<Vec<_>>(), "statements": v.history.iter().map(stmt).collect::<Vec<_>>()}));
         });
         hx::report(
